@@ -56,6 +56,9 @@ def run(ctx):
         segs = [[('W', a), ('R', None), ('S', None), ('W', None)] for a in range(0, ctx.pick(70, 140), stride)]
         segs += [[('R', None), ('W', a), ('S', None), ('W', None)] for a in range(0, ctx.pick(90, 260), stride + 1)]
         segs += [[('W', a), ('R', None), ('S', 2), ('W', 3), ('S', None), ('W', None)] for a in range(0, 40, 3)]
+        # the storing thread has stored its first datapoint; the writer is a steps into its pass (choosing, sorting,
+        # popping) when the remaining stores - new metrics among them - arrive; then the stop
+        segs += [[('R', 22), ('W', a), ('R', None), ('S', None), ('W', None)] for a in range(0, ctx.pick(70, 120), stride)]
         # every other configuration has a series whose file does not exist yet (create + tag registration on the way)
         pre = ('m1', 'm2') if (si + limits.index(lim)) % 2 else ('m1',)
         n = writercheck.explore(ctx, wm, cfg, r_ops, set(), pre, bound=ctx.pick(1, 2),
